@@ -16,7 +16,8 @@ REQUIRED_THEOREMS = ['C17_hier_lengths', 'C17_grad_length', 'C17_reduced_lengths
                      'C17_top_names_from_end_counterexample', 'C17_top_level_names_reduced', 'C17_selection_count',
                      'C17_selection_raw_count_iff', 'C17_selection_raw_count_counterexample', 'C17_posterior_grad_length',
                      'C17_hier_posterior_grad_length', 'C17_hier_prior_sens_iff', 'C17_hier_prior_sens_counterexample',
-                     'C17_filter_posterior_grad_length']
+                     'C17_filter_posterior_grad_length', 'C17_controller_history', 'C17_controller_names_count',
+                     'C17_controller_history_unwrap_only_counterexample']
 RULE = ('every kind of object (error models, population models incl. composed / covariate / reduced, individual '
         'and hierarchical likelihoods and posteriors, predictive models, SBML mechanistic models on the '
         'reference integrator) in random compositions (thorough: every composition of <=3 elementary sub-models '
@@ -31,6 +32,10 @@ RULE = ('every kind of object (error models, population models incl. composed / 
         'evaluateS1 inside the support AND where the score is -inf / undefined (priors mixed from unbounded, '
         'one-sided and two-sided supports; one entry — individual-level or top-level — at 0, below 0 or far out; '
         'all top-level entries negative): excluded by the prior, by the population model, by an error model; '
+        'a ProblemModellingController held across random histories of set_population_model / fix_parameters '
+        '(fix, release) / set_data with heterogeneous sub-models and datasets of different numbers of individuals, '
+        'observed after every call (names against a fresh population model of the current configuration; prior of '
+        'the reported dimension accepted; posterior top level = reported names); '
         'non-trivial = composite with >=2 sub-models or >=1 reconfiguration; distinct = (object kind, '
         'composition, reconfiguration sequence shape)')
 ASSUMPTIONS = ['names/counts/IDs are read through the public API only',
@@ -688,6 +693,164 @@ def controller_objects(ctx, chi, rng, i):
         ctx.spec('C17.Controller.raises', False, inp, {'raised': repr(e)[:300]})
 
 
+HIST_KINDS = ('H', 'P', 'LN', 'G')
+
+
+def controller_histories(ctx, chi, rng, i):
+    """a ProblemModellingController held across a HISTORY of set_population_model / fix_parameters (fix and
+    release) / set_data calls in any order, with population models whose number of parameters depends on the number
+    of individuals (heterogeneous sub-models) and datasets with DIFFERENT numbers of individuals. After every call:
+    reported count = reported names = the names of a fresh population model of the current composition and current
+    number of individuals without the currently fixed ones (documented: set_data and set_population_model set all
+    population parameters free again). Whenever data is set: a prior of the reported dimension is accepted, the
+    posterior built has exactly the reported names as its top level, IDs / vectors / gradients of its own reported
+    length; the predictive model reports the same population parameters."""
+    import pandas as pd
+    from props import c04
+    n_out = int(rng.integers(1, 3))
+    n_mech = int(rng.integers(1, 3))
+    kinds = [c04.KINDS[int(rng.integers(4))] for _ in range(n_out)]
+    em_names = {'G': ['Sigma'], 'M': ['Sigma rel.'], 'CM': ['Sigma base', 'Sigma rel.'], 'LN': ['Sigma log']}
+    outs = toy.ToyModel(n_out, n_mech, i).outputs()
+    bottom = ['psi%d' % k for k in range(n_mech)] + \
+        [((o + ' ') if n_out > 1 else '') + nm for o, k_ in zip(outs, kinds) for nm in em_names[k_]]
+    D = len(bottom)
+
+    def draw_pop():
+        pk = [HIST_KINDS[int(rng.choice(4, p=[0.4, 0.2, 0.2, 0.2]))] for _ in range(D)]
+        return pk, (D > 1 or rng.random() < 0.5)
+
+    def make_pop(pk, composed):
+        cls = {'H': chi.HeterogeneousModel, 'P': chi.PooledModel, 'LN': chi.LogNormalModel, 'G': chi.GaussianModel}
+        ms = [cls[k]() for k in pk]
+        return chi.ComposedPopulationModel(ms) if composed else ms[0]
+
+    def make_data(n_ids):
+        rows = []
+        for pid in range(n_ids):
+            for o in range(n_out):
+                for t in np.sort(rng.choice(np.arange(1, 12) * 0.5, int(rng.integers(1, 3)), replace=False)):
+                    rows.append({'ID': 'p%d' % pid, 'Time': float(t), 'Observable': 'obs%d' % o,
+                                 'Value': float(rng.uniform(0.5, 3))})
+        return pd.DataFrame(rows)
+
+    # the reference state (what the documentation says the calls do)
+    st = {'pop': None, 'n_ids': None, 'fixed': []}
+
+    def reference_names():
+        if st['pop'] is None:
+            return list(bottom)
+        fresh = make_pop(*st['pop'])
+        if st['n_ids'] is not None:
+            fresh.set_n_ids(st['n_ids'])
+        fresh.set_dim_names(list(bottom))
+        return [nm for nm in fresh.get_parameter_names() if nm not in st['fixed']]
+
+    length = int(rng.integers(3, 7))
+    seq = []
+    wire = []       # the same history for the Lean model (ChiModel.CtrlHistory)
+    inp = {'object': 'ProblemModellingController held across a history', 'error_models': kinds, 'n_mech': n_mech}
+    c = chi.ProblemModellingController(toy.ToyModel(n_out, n_mech, i), [c04.classes(chi)[k][0]() for k in kinds])
+    hetero_resized_while_fixed = False
+    step = 0
+    while step < length or st['n_ids'] is None:
+        step += 1
+        r = rng.random()
+        if st['pop'] is None and st['n_ids'] is not None:
+            op = 'set_population_model'
+        elif st['pop'] is None:
+            op = 'set_population_model' if r < 0.6 else 'set_data'
+        elif step > length:
+            op = 'set_data'
+        else:
+            op = 'set_data' if r < 0.35 else ('fix_parameters' if r < 0.75 else
+                                              ('release' if r < 0.87 else 'set_population_model'))
+        try:
+            if op == 'set_population_model':
+                pk = draw_pop()
+                c.set_population_model(make_pop(*pk))
+                st['pop'], st['fixed'] = pk, []
+                wire.append(['pop', list(pk[0])])
+                seq.append('set_population_model(%s)' % '+'.join(pk[0]))
+            elif op == 'set_data':
+                others = [k for k in range(1, 5) if k != (st['n_ids'] or 1)]
+                n_ids = int(rng.choice(others)) if rng.random() < 0.8 else int(st['n_ids'] or 1)
+                if st['fixed'] and st['pop'] and 'H' in st['pop'][0] and n_ids != (st['n_ids'] or 1):
+                    hetero_resized_while_fixed = True
+                c.set_data(make_data(n_ids), output_observable_dict={o: 'obs%d' % k for k, o in enumerate(outs)})
+                st['n_ids'], st['fixed'] = n_ids, []
+                wire.append(['data', n_ids])
+                seq.append('set_data(%d individuals)' % n_ids)
+            elif op == 'fix_parameters':
+                cur = reference_names()
+                if len(cur) < 2:
+                    continue
+                fx = [cur[j] for j in rng.choice(len(cur), size=int(rng.integers(1, len(cur))), replace=False)]
+                c.fix_parameters({nm: 1.0 for nm in fx})
+                st['fixed'] = st['fixed'] + fx
+                wire.append(['fix', list(fx)])
+                seq.append('fix_parameters(%s)' % fx)
+            else:
+                if not st['fixed']:
+                    continue
+                rel = [nm for nm in st['fixed'] if rng.random() < 0.6] or [st['fixed'][0]]
+                c.fix_parameters({nm: None for nm in rel})
+                st['fixed'] = [nm for nm in st['fixed'] if nm not in rel]
+                wire.append(['release', list(rel)])
+                seq.append('fix_parameters(release %s)' % rel)
+        except Exception as e:  # noqa
+            ctx.spec('C17.Controller.history.raises', False, dict(inp, sequence=seq + [op]), {'raised': repr(e)[:300]})
+            return
+        hin = dict(inp, sequence=list(seq))
+        try:
+            want = reference_names()
+            names = list(c.get_parameter_names())
+            n = c.get_n_parameters()
+            ctx.spec('C17.Controller.history.count_eq_names', n == len(names) and len(set(names)) == len(names), hin,
+                     {'n': n, 'names': names})
+            ctx.spec('C17.Controller.history.names_of_current_configuration', names == want, hin,
+                     {'names': names, 'expected': want})
+            mo = ctx.model('C17.ctrlHistory', list(bottom), wire)
+            ctx.agree('C17.ctrlHistory.names', names, mo[0], hin)
+            ctx.agree('C17.ctrlHistory.count', int(n), mo[1], hin)
+            if st['n_ids'] is None or st['pop'] is None or n == 0 or (step < length and rng.random() < 0.4):
+                continue
+            prior = pints.ComposedLogPrior(*[pints.LogNormalLogPrior(0, 0.3) for _ in range(n)]) if n > 1 \
+                else pints.LogNormalLogPrior(0, 0.3)
+            try:
+                c.set_log_prior(prior)
+                hp = c.get_log_posterior()
+            except Exception as e:  # noqa
+                ctx.spec('C17.Controller.history.prior_of_reported_dimension_accepted', False, hin,
+                         {'reported_n': n, 'raised': repr(e)[:300]})
+                continue
+            m = hp.n_parameters()
+            nt = hp.n_parameters(exclude_bottom_level=True)
+            ids = list(hp.get_id())
+            top = list(hp.get_parameter_names(exclude_bottom_level=True))
+            ctx.agree('C17.ctrlHistory.posterior_top_level', top, mo[2], hin)
+            ctx.spec('C17.Controller.history.posterior_top_level_is_the_reported', nt == n and top == names, hin,
+                     {'controller': names, 'posterior_top_level': top, 'n_top': nt})
+            ctx.spec('C17.Controller.history.posterior_lengths',
+                     m == len(hp.get_parameter_names()) == len(ids) == len(hp.get_parameter_names(include_ids=True))
+                     and sum(1 for x in ids if x is not None) == m - nt and all(x is None for x in ids[m - nt:])
+                     and len(set(hp.get_parameter_names(include_ids=True))) == m, hin,
+                     {'n': m, 'names': len(hp.get_parameter_names()), 'ids': len(ids), 'n_top': nt})
+            gradient_length_everywhere(ctx, hp, 'C17.Controller.history.posterior', rng, hin,
+                                       top=range(m - nt, m), prior=prior, k=2, kind='hierarchical')
+            pmod = c.get_predictive_model()
+            pn = list(pmod.get_parameter_names())
+            ctx.spec('C17.Controller.history.predictive_model', pmod.n_parameters() == len(pn) and pn == names, hin,
+                     {'predictive_names': pn, 'controller': names, 'n': pmod.n_parameters()})
+        except Exception as e:  # noqa
+            ctx.spec('C17.Controller.history.raises', False, hin, {'raised': repr(e)[:300]})
+            return
+    shape = [s.split('(')[0] for s in seq]
+    ctx.case('Controller/history/%s%s' % ('+'.join(shape), '/heterogeneous-resized-while-fixed'
+                                          if hetero_resized_while_fixed else ''),
+             nontrivial='CtrlH/%s/%s' % (kinds, seq), sample=dict(inp, sequence=seq))
+
+
 def covariate_objects(ctx, chi, rng, i):
     """covariate models on their own and as the wrapper's part, after a history of selections of the transformed
     [param, dim] pairs — written in any order, as lists / tuples / arrays, pairs possibly listed repeatedly (a
@@ -1096,6 +1259,8 @@ def run(ctx):
             ctx.guard(filter_posterior_objects, ctx, chi, ctx.sub_rng(4 * i + 3), i)
         if i % 3 == 0:
             ctx.guard(controller_objects, ctx, chi, ctx.sub_rng(4 * i + 3), i)
+        if i % 3 == 1:
+            ctx.guard(controller_histories, ctx, chi, ctx.sub_rng(4 * i + 2), i)
         if i % 4 == 1:
             ctx.guard(reduced_then_resized, ctx, chi, ctx.sub_rng(4 * i + 3))
         if i % 4 == 3:
